@@ -217,19 +217,17 @@ def isqrt_exact(n):
 FAMILY_CODE = {"EP_BN": 1}
 
 
-def write_lean(fields, curves, enums, out_path):
-    L = ["/-", "GENERATED by tools/translate_params.py from src/fp/relic_fp_param.c and src/ep/relic_ep_param.c of the current /repo working tree",
-         "— do not edit, not committed.", "-/", "import RelicVerif.Model.ParamBase", "", "namespace Relic.Gen.Params", "open Relic.Model.Param", ""]
-    L.append("def fields : List FieldParam := [")
+def _field_rows(fields):
     rows = []
     for n, f in sorted(fields.items()):
         if f["kind"] == "pairf":
             rows.append('  { name := "%s", id := %d, kind := .family "%s" (%d), sps := [] }' % (n, f["id"], f["family"], f["x"]))
         else:
             rows.append('  { name := "%s", id := %d, kind := .literal 0x%x, sps := [%s] }' % (n, f["id"], f["p"], ", ".join(str(v) for v in f.get("sps", []))))
-    L.append(",\n".join(rows))
-    L.append("]\n")
-    L.append("def curves : List CurveParam := [")
+    return rows
+
+
+def _curve_rows(fields, curves):
     rows = []
     for n, c in sorted(curves.items()):
         fl = c["flags"]
@@ -237,7 +235,7 @@ def write_lean(fields, curves, enums, out_path):
         if c.get("twist"):
             t = c["twist"]
             f = fields[c["field"]]
-            pr = f["p"] if f["kind"] != "pairf" else bn_p(f["x"])
+            pr = field_prime(f)
             tr = pr + 1 - c["H"] * c["R"]
             t2 = tr * tr - 2 * pr
             f2 = isqrt_exact((4 * pr * pr - t2 * t2) // 3)
@@ -249,7 +247,27 @@ def write_lean(fields, curves, enums, out_path):
                         n, c["id"], c["field"], c["A"], c["B"], c["X"], c["Y"], c["R"], c["H"],
                         "true" if fl.get("plain") == "1" else "false", "true" if fl.get("endom") == "1" else "false",
                         fl.get("pairf", ""), c.get("level", 0), tw))
-    L.append(",\n".join(rows))
+    return rows
+
+
+def write_lean(fields, curves, enums, out_path, extra_fields=None, extra_curves=None):
+    """`fields` / `curves`: the sets selectable in the pinned (base) configuration; `extraFields` / `extraCurves`: the sets selectable in the
+    other verified configurations (EXTRA_CFGS), extracted with those configurations' relic_conf.h"""
+    extra_fields, extra_curves = extra_fields or {}, extra_curves or {}
+    L = ["/-", "GENERATED by tools/translate_params.py from src/fp/relic_fp_param.c and src/ep/relic_ep_param.c of the current /repo working tree",
+         "— do not edit, not committed.", "-/", "import RelicVerif.Model.ParamBase", "", "namespace Relic.Gen.Params", "open Relic.Model.Param", ""]
+    L.append("def fields : List FieldParam := [")
+    L.append(",\n".join(_field_rows(fields)))
+    L.append("]\n")
+    L.append("def curves : List CurveParam := [")
+    L.append(",\n".join(_curve_rows(fields, curves)))
+    L.append("]\n")
+    L.append("/-- parameter sets of the other verified configurations (%s) -/" % ", ".join(EXTRA_CFGS))
+    L.append("def extraFields : List FieldParam := [")
+    L.append(",\n".join(_field_rows(extra_fields)))
+    L.append("]\n")
+    L.append("def extraCurves : List CurveParam := [")
+    L.append(",\n".join(_curve_rows(extra_fields, extra_curves)))
     L.append("]\n")
     L.append("end Relic.Gen.Params")
     os.makedirs(os.path.dirname(out_path), exist_ok=True)
@@ -260,10 +278,23 @@ def bn_p(x):
     return 36 * x ** 4 + 36 * x ** 3 + 24 * x ** 2 + 6 * x + 1
 
 
+def family_p(fam, x):
+    """field characteristic of a pairing-friendly family (mirrors Model/ParamBase.lean familyP; 0 = unknown family)"""
+    if fam == "EP_BN":
+        return bn_p(x)
+    if fam == "EP_B12":
+        return (x - 1) ** 2 * (x ** 4 - x ** 2 + 1) // 3 + x
+    return 0
+
+
+def field_prime(f):
+    return f["p"] if f["kind"] != "pairf" else family_p(f["family"], f["x"])
+
+
 def needed_primes(fields, curves):
     ns = set()
     for f in fields.values():
-        ns.add(f["p"] if "p" in f else bn_p(f["x"]))
+        ns.add(field_prime(f))
     for c in curves.values():
         ns.add(c["R"])
     return sorted(ns)
@@ -302,17 +333,42 @@ def write_certs(ns, out_path):
     return failures
 
 
+EXTRA_CFGS = ("p255", "p381")
+
+
 def generate(base_build_dir, out_path=None):
     inc = [os.path.join(base_build_dir, "include"), os.path.join(REPO, "include"), os.path.join(REPO, "include", "low"),
            os.path.join(REPO, "src", "tmpl")]
     out_path = out_path or os.path.join(VERIF, "lean", "RelicVerif", "Gen", "Params.lean")
+    ids_path = os.path.join(os.path.dirname(out_path), "params_ids.json")
+    import json
     try:
         fields, curves, enums = extract(inc)
-        write_lean(fields, curves, enums, out_path)
-        cert_fail = write_certs(needed_primes(fields, curves), os.path.join(os.path.dirname(out_path), "Certs.lean"))
-        obl = [{"c_function": "fp_param_set case " + n, "ok": True} for n in sorted(fields)] + \
-              [{"c_function": "ep_param_set case " + n, "ok": True} for n in sorted(curves)]
-        return {"obligations": obl, "failures": cert_fail, "fields": fields, "curves": curves}
+        # the other verified configurations: the same two switch statements preprocessed with their relic_conf.h
+        xf, xc, ids, xfail = {}, {}, {"base": sorted(c["id"] for c in curves.values())}, []
+        sys.path.insert(0, TOOLS)
+        import relicbuild as rb
+        for cfg in EXTRA_CFGS:
+            b, err = rb.build(cfg)
+            if b is None:
+                xfail.append("configuration %s does not build: %s" % (cfg, (err or "")[-200:]))
+                continue
+            f2, c2, _ = extract([os.path.join(b, "include")] + inc[1:])
+            ids[cfg] = sorted(c["id"] for c in c2.values())
+            for n, f in f2.items():
+                if n not in fields:
+                    xf[n] = f
+            for n, c in c2.items():
+                if n not in curves:
+                    xc[n] = c
+        write_lean(fields, curves, enums, out_path, xf, xc)
+        __import__("relicbuild").write_if_changed(ids_path, json.dumps(ids, sort_keys=True) + "\n")
+        allf = dict(fields); allf.update(xf)
+        allc = dict(curves); allc.update(xc)
+        cert_fail = write_certs(needed_primes(allf, allc), os.path.join(os.path.dirname(out_path), "Certs.lean"))
+        obl = [{"c_function": "fp_param_set case " + n, "ok": True} for n in sorted(allf)] + \
+              [{"c_function": "ep_param_set case " + n, "ok": True} for n in sorted(allc)]
+        return {"obligations": obl, "failures": cert_fail + xfail, "fields": allf, "curves": allc}
     except ParamError as e:
         # keep the Lean library buildable: an empty table makes every per-set theorem vacuous, the failure is reported
         write_lean({}, {}, {}, out_path)
